@@ -278,7 +278,15 @@ func (s *BadgerStore) addParticipant(p *peers.Peer) error {
 func (s *BadgerStore) SetEvent(event *Event) error {
 	// try to add it to the cache
 	if err := s.inmemStore.SetEvent(event); err != nil {
-		return err
+		// An update of an Event that is already in the database, but has left
+		// the in-memory window of its creator, has nothing to record in the
+		// cache; it only goes to the database.
+		if !cm.IsStore(err, cm.TooLate) {
+			return err
+		}
+		if _, dbErr := s.dbGetEvent(event.Hex()); dbErr != nil {
+			return err
+		}
 	}
 
 	// try to add it to the db
